@@ -61,7 +61,7 @@ def save_to_memory(qr, kind, kw):
 def raster_obs(spec):
     """spec: {version, kind, kw, seed}; kind in png pbm pam ppm xbm xpm txt ans compact."""
     qr = symbol_for(spec['version'], spec['seed'])
-    kind, kw = spec['kind'], dict(spec['kw'])
+    kind, kw = spec['kind'], {k: tuple(v) if isinstance(v, list) else v for k, v in spec['kw'].items()}     # replay files hold tuples as lists
     o = {'_spec': spec, 'family': 'raster', 'prop': 'C09', 'kind': kind, 'matrix': [list(r) for r in qr.matrix],
          'border': effective_border(qr, kw.get('border')), 'scale': 1, 'dpi': -1, 'outcome': {'status': 'ok'}}
     sc = kw.get('scale', 1)
@@ -188,6 +188,15 @@ def run_pool(fn, specs):
         return pool.map(fn, specs, chunksize=max(1, len(specs) // 256))
 
 
+def run_session(fn, specs):
+    """all specs in ONE freshly forked process, in order: documents must not depend on what was rendered before (caches keyed by
+    equal-comparing arguments, module-level iterators that are used up, ...)"""
+    if not specs:
+        return []
+    with mp.get_context('fork').Pool(1) as pool:
+        return pool.map(fn, specs, chunksize=len(specs))
+
+
 def brief_spec(s):
     return f"{s['kind']} of version {s['version']} with {s['kw']}"
 
@@ -229,6 +238,31 @@ def run_c09(rep, tier):
     specs = gen_raster(tier, common.seed())
     rep.evaluations = len(specs)
     obs = run_pool(raster_obs, specs)
+    # one long session in a single process: 200 (thorough: 1000) small images, transparent / alpha / palette colour combinations in rotation
+    combos = [{'dark': '#00008b80', 'light': None}, {'dark': None, 'light': (255, 255, 0, 0.5)}, {'dark': (0, 0, 139, 1), 'light': None},
+              {'dark': (0, 0, 139, 1.0), 'light': None}, {'dark': None}, {'light': None}, {'dark': '#000', 'light': '#fff'}, {'dark': 'black', 'light': 'white'},
+              {'dark': (0, 0, 0), 'light': (255, 255, 255)}, {'dark': '#0008', 'light': None}, {'dark': 'red', 'light': None, 'finder_dark': '#00f8'},
+              {'dark': (1, 2, 3, 0.25), 'light': None}]
+    sess = []
+    for i in range(200 if tier == 'quick' else 1000):
+        kind = ('png', 'png', 'png', 'pam', 'ppm', 'xpm')[i % 6] if i % 12 >= 2 else 'png'
+        kw = dict(combos[i % len(combos)])
+        if kind == 'ppm':
+            kw = {k: v for k, v in kw.items() if v is not None and not (isinstance(v, tuple) and len(v) == 4) and not (isinstance(v, str) and len(v) in (5, 9))}
+        if kind == 'xpm':
+            kw = {k: v for k, v in kw.items() if not (isinstance(v, tuple) and len(v) == 4)}
+        if kind in ('pam', 'xpm'):
+            kw.pop('finder_dark', None)
+        sess.append({'version': ('M2', 1)[i % 2], 'kind': kind, 'kw': dict(kw, scale=1 + i % 2), 'seed': common.seed(), 'family': 'raster'})
+    for a in list(range(0, 256, 1 if tier == 'thorough' else 5)) + [1, 2, 16, 254]:
+        sess.append({'version': 'M1', 'kind': ('png', 'pam')[a % 2], 'kw': {'dark': (0, 0, 139, a)}, 'seed': common.seed(), 'family': 'raster'})
+    for a in (0, 1, 2, 16, 128, 254, 255, 0.0, 0.5, 1.0):
+        for rgb in ((0, 0, 0), (255, 255, 255), (255, 0, 0)):
+            for kind in ('png', 'pam'):
+                sess.append({'version': 'M1', 'kind': kind, 'kw': {'dark': rgb + (a,), 'light': (0, 128, 0)}, 'seed': common.seed(), 'family': 'raster'})
+                sess.append({'version': 'M1', 'kind': kind, 'kw': {'light': rgb + (a,)}, 'seed': common.seed(), 'family': 'raster'})
+    rep.evaluations += len(sess)
+    obs += run_session(raster_obs, sess)
     judge_docs(rep, obs, refusal_expected=lambda s: s['kw'].get('scale', 1) < 1)
     rep.trusted += ['zlib inflate and CRC-32 (PNG chunks), header tokenisers of harness/project.py']
     rep.rule = ('sizes 11..29 x border {default,0..4} x scale {1,2,3,5,8} so that the row length covers all residues mod 8, for PNG (14 colour '
@@ -267,7 +301,7 @@ def replay(pid, d):
 # =============================================================================================== C10
 def vector_obs(spec):
     qr = symbol_for(spec['version'], spec['seed'])
-    kind, kw = spec['kind'], dict(spec['kw'])
+    kind, kw = spec['kind'], {k: tuple(v) if isinstance(v, list) else v for k, v in spec['kw'].items()}     # replay files hold tuples as lists
     sc = kw.get('scale', 1)
     o = {'_spec': spec, 'family': 'vector', 'prop': 'C10', 'kind': kind, 'matrix': [list(r) for r in qr.matrix],
          'border': effective_border(qr, kw.get('border')), 'scale_micro': project.um(sc), 'outcome': {'status': 'ok'}}
@@ -352,6 +386,31 @@ def run_c10(rep, tier):
     specs = gen_vector(tier, common.seed())
     rep.evaluations = len(specs)
     obs = run_pool(vector_obs, specs)
+    # one session in a single process: equal-comparing colour arguments (1 == 1.0 == True) and equal colours in different notations in rotation
+    cols = [{'dark': (0, 0, 139, 1)}, {'dark': (0, 0, 139, 1.0)}, {'dark': (0, 0, 139, True)}, {'dark': (0, 0, 139)}, {'dark': '#00008b'}, {'dark': 'darkblue'},
+            {'dark': (0, 0, 139, 1.0), 'light': (255, 255, 255, 1)}, {'light': (255, 255, 255, 1.0)}, {'dark': '#00008bff'}, {'dark': (0, 0, 139, 0)},
+            {'dark': (0, 0, 139, 0.0)}, {'dark': (0, 0, 139, False), 'light': 'yellow'}]
+    sess = []
+    for i in range(96 if tier == 'quick' else 480):
+        kind = ('svg', 'pdf', 'eps', 'svg')[i % 4]
+        sess.append({'version': ('M2', 1)[i % 2], 'kind': kind, 'kw': dict(cols[(i // 4 + i) % len(cols)], scale=(1, 2.5)[i % 2]), 'seed': common.seed(), 'family': 'vector'})
+    # every integer alpha value (0..255) as stroke opacity, and the special colours black / white with the alpha values around the ends
+    for a in range(256):
+        sess.append({'version': 'M1', 'kind': 'svg', 'kw': {'dark': (0, 0, 139, a), 'scale': 1}, 'seed': common.seed(), 'family': 'vector'})
+    for a in (0, 1, 2, 16, 127, 128, 254, 255, 0.0, 0.5, 1.0):
+        for rgb in ((0, 0, 0), (255, 255, 255), (255, 0, 0)):
+            sess.append({'version': 'M1', 'kind': 'svg', 'kw': {'dark': rgb + (a,), 'light': (0, 128, 0)}, 'seed': common.seed(), 'family': 'vector'})
+            sess.append({'version': 'M1', 'kind': 'svg', 'kw': {'light': rgb + (a,)}, 'seed': common.seed(), 'family': 'vector'})
+    rep.evaluations += len(sess)
+    sobs = run_session(vector_obs, sess)
+    # a colour the format cannot express (alpha in EPS / PDF) may be refused with a ValueError - in every position of the session alike
+    for o in sobs:
+        if o['outcome']['status'] != 'ok' and 'ValueError' in o['outcome'].get('mro', []) and o['_spec']['kind'] in ('eps', 'pdf'):
+            def translucent(c):
+                return isinstance(c, tuple) and len(c) == 4 and not (c[3] == 1.0 if isinstance(c[3], float) else c[3] == 255)
+            if translucent(o['_spec']['kw'].get('dark')) or translucent(o['_spec']['kw'].get('light')):
+                continue
+        obs.append(o)
     judge_docs(rep, obs)
     remarks = {}
     for o in obs:
@@ -373,7 +432,7 @@ PALETTE = ['red', 'green', 'blue', 'yellow', 'navy', 'darkred', 'orange', 'purpl
 
 def typed_obs(spec):
     qr = symbol_for(spec['version'], spec['seed'])
-    kind, kw = spec['kind'], dict(spec['kw'])
+    kind, kw = spec['kind'], {k: tuple(v) if isinstance(v, list) else v for k, v in spec['kw'].items()}     # replay files hold tuples as lists
     o = {'_spec': spec, 'family': spec['family'], 'prop': 'C11', 'kind': kind, 'matrix': [list(r) for r in qr.matrix],
          'border': effective_border(qr, kw.get('border')), 'scale': int(kw.get('scale', 1)), 'outcome': {'status': 'ok'}}
     try:
